@@ -116,14 +116,35 @@ ALLOWED_AXIOMS = set()   # every property theorem is expected to be closed under
 
 
 @_locked
+def closure_digest(prop):
+    """sha256 over all .vo files of this development that Props/<prop>.vo depends on (from coq_makefile's .Makefile.d)"""
+    import hashlib
+    deps = {}
+    for line in open(os.path.join(COQ, '.Makefile.d')):
+        m = re.match(r'^(\S+\.vo) [^:]*: (.*)$', line)
+        if m:
+            deps[m.group(1)] = [d for d in m.group(2).split() if d.endswith('.vo')]
+    seen, todo = set(), ['Props/%s.vo' % prop]
+    while todo:
+        f = todo.pop()
+        if f in seen:
+            continue
+        seen.add(f)
+        todo += deps.get(f, [])
+    h = hashlib.sha256()
+    for f in sorted(seen):
+        h.update(f.encode())
+        h.update(open(os.path.join(COQ, f), 'rb').read())
+    return h.hexdigest()
+
+
 def coqchk_closure(prop, info, budget_s=3 * 3600):
     """thorough tier: re-check Props/<prop>.vo and everything it depends on with the independent checker coqchk
-    and read the axioms it reports. A .vo records the digests of the libraries it requires, so the hash of the
-    property's .vo pins its whole closure and is the cache key (coqchk re-runs every vm_compute sweep with its
-    own lazy machine: seconds for most properties, up to an hour for those resting on the 2^16 table sweeps)."""
-    import hashlib
-    vo = os.path.join(COQ, 'Props', prop + '.vo')
-    key = hashlib.sha256(open(vo, 'rb').read()).hexdigest()
+    and read the axioms it reports. The cache key is the digest of every compiled file of this development in
+    the closure (a .vo records only the digest of the non-opaque part of what it requires, so the property's
+    own .vo would not pin the proof bodies below it). coqchk re-runs every vm_compute sweep with its own lazy
+    machine: seconds for most properties, up to an hour for those resting on the 2^16 table sweeps."""
+    key = closure_digest(prop)
     cache = os.path.join(BUILD, 'coqchk_%s.json' % prop)
     if os.path.exists(cache):
         c = json.load(open(cache))
@@ -508,6 +529,7 @@ def finish(v, level, rule, trusted, assumptions, explanation=None):
         path = os.path.join(VERIF, 'replays', '%s-%d-%d.json' % (v.prop, v.seed, n))
         if 'poison_seed' in v.extra and 'poison_seed' not in replay:
             replay = dict(replay, poison_seed=v.extra['poison_seed'])
+        summary = summary if len(summary) <= 600 else summary[:600] + ' ...'
         replay = dict(replay, property=v.prop, summary=summary, seed=v.seed, tier=v.tier,
                       replay_cmd='./check %s --replay %s' % (v.prop, path))
         with open(path, 'w') as f:
